@@ -232,6 +232,9 @@ func (it *indexedMessageIterator) loadChunk(chunkIndex *ChunkIndex) error {
 	}
 	if uint64(cap(it.recordBuf)) < compressedChunkLength {
 		newCapacity := int(float64(compressedChunkLength) * chunkBufferGrowthMultiple)
+		if newCapacity > math.MaxInt32 {
+			newCapacity = math.MaxInt32
+		}
 		it.recordBuf = make([]byte, compressedChunkLength, newCapacity)
 	} else {
 		it.recordBuf = it.recordBuf[:compressedChunkLength]
